@@ -17,7 +17,10 @@
 (* v.y <= (p*sn)*w with y in units of 1/(Q*sd); the unscaled vertex x      *)
 (* (hand value, homogeneous <<n1,n2,n3,d>>) becomes y = Q*sn*x.            *)
 (***************************************************************************)
-EXTENDS Wulff
+EXTENDS Wulff, Json
+
+CONSTANT VertexFormula     \* "code": wulff.py as written; "wrong-column": the deviation of the self-test
+                           \* mutant (energy of another simplex corner), shown by ./check C19 --explain
 
 Signs == {-1, 1}
 Neg(f) == << -f[1], -f[2], -f[3], f[4], f[5] >>
@@ -97,44 +100,52 @@ ASSUME \A i \in DOMAIN Shapes : \A sc \in Scales :
       /\ r <= 20000 /\ 2 * r * r <= 2147483647 \div (3 * cm)      \* SimplexVertex
       /\ Shapes[i].Q * sc[1] * MaxOver({AbsI(h[c]) : h \in Shapes[i].hverts, c \in 1..3}) < 100000
 
-VARIABLES sh, sc, phase, simp, em, lists, ordered, tris, trilab
-vars == <<sh, sc, phase, simp, em, lists, ordered, tris, trilab>>
+(* spec -> code: the instances of this model, replayed through the real code by harness/c19.py *)
+ASSUME PrintT("SHAPES|" \o ToJson([shapes |-> [i \in DOMAIN Shapes |->
+                                                 [name |-> Shapes[i].name, Q |-> Shapes[i].Q, facets |-> Shapes[i].facets]],
+                                   scales |-> SetToSeq(Scales)]))
 
+VARIABLES sh, sc, phase, V, simp, em, lists, ordered, tris, trilab
+vars == <<sh, sc, phase, V, simp, em, lists, ordered, tris, trilab>>
+
+(* V is the declarative answer (the half-space intersection) of the picked instance *)
 pl == PlanesOfShape(sh, sc[1])
 XT == CrossTab(pl)
-V == HalfSpaceVertices(pl, XT)
 SeqSet(s) == {s[k] : k \in DOMAIN s}
 Pos(lst) == {em[lst[k]] : k \in DOMAIN lst}
 
-Init == /\ sh = 1 /\ sc = <<1,1>> /\ phase = "idle"
+Init == /\ sh = 1 /\ sc = <<1,1>> /\ phase = "idle" /\ V = {}
         /\ simp = <<>> /\ em = <<>> /\ lists = <<>> /\ ordered = <<>> /\ tris = <<>> /\ trilab = <<>>
 Pick == /\ phase = "idle"
         /\ sh' \in DOMAIN Shapes /\ sc' \in Scales /\ phase' = "duals"
+        /\ V' = LET p == PlanesOfShape(sh', sc'[1]) IN HalfSpaceVertices(p, CrossTab(p))
         /\ UNCHANGED <<simp, em, lists, ordered, tris, trilab>>
 (* _construct_dual_space_hull: the simplices, each listed from its corner number r *)
 Rot(s, r) == IF r = 0 THEN s ELSE IF r = 1 THEN << s[2], s[3], s[1] >> ELSE << s[3], s[1], s[2] >>
 Hull == /\ phase = "duals"
         /\ \E r \in 0..2 : simp' = LET S == SetToSeq(HullSimplices(pl)) IN [k \in DOMAIN S |-> Rot(S[k], r)]
         /\ phase' = "hull"
-        /\ UNCHANGED <<sh, sc, em, lists, ordered, tris, trilab>>
+        /\ UNCHANGED <<sh, sc, V, em, lists, ordered, tris, trilab>>
 (* _extract_wulff_from_dual_mesh *)
 Extract == /\ phase = "hull"
-           /\ em' = [k \in DOMAIN simp |-> SimplexVertex(pl, simp[k][1], simp[k][2], simp[k][3])]
+           /\ em' = [k \in DOMAIN simp |->
+                      IF VertexFormula = "code" THEN SimplexVertex(pl, simp[k][1], simp[k][2], simp[k][3])
+                      ELSE SimplexVertexWrongColumn(pl, simp[k][1], simp[k][2], simp[k][3])]
            /\ lists' = SimplexLists(pl, simp)
            /\ phase' = "extracted"
-           /\ UNCHANGED <<sh, sc, simp, ordered, tris, trilab>>
+           /\ UNCHANGED <<sh, sc, V, simp, ordered, tris, trilab>>
 (* ordered_facets: prune coincident points, order counter-clockwise about the first *)
 Order == /\ phase = "extracted"
          /\ ordered' = [m \in DOMAIN pl |-> FanOrder(PrunedList(lists[m], em), em, pl[m].v)]
          /\ phase' = "ordered"
-         /\ UNCHANGED <<sh, sc, simp, em, lists, tris, trilab>>
+         /\ UNCHANGED <<sh, sc, V, simp, em, lists, tris, trilab>>
 (* order_and_triangulate_polygons *)
 Triangulate ==
   /\ phase = "ordered"
   /\ tris' = FlattenSeq([m \in DOMAIN pl |-> FanTriangles(ordered[m])])
   /\ trilab' = FlattenSeq([m \in DOMAIN pl |-> [k \in DOMAIN FanTriangles(ordered[m]) |-> m]])
   /\ phase' = "done"
-  /\ UNCHANGED <<sh, sc, simp, em, lists, ordered>>
+  /\ UNCHANGED <<sh, sc, V, simp, em, lists, ordered>>
 Next == Pick \/ Hull \/ Extract \/ Order \/ Triangulate
 Spec == Init /\ [][Next]_vars
 
@@ -144,7 +155,7 @@ AfterOrder == phase \in {"ordered", "done"}
 
 TypeOK == /\ phase \in {"idle", "duals", "hull", "extracted", "ordered", "done"}
           /\ sh \in DOMAIN Shapes /\ sc \in Scales
-          /\ Bounded(pl, XT) /\ DistinctDirections(pl, XT) /\ Centrosymmetric(pl)
+          /\ phase = "duals" => (Bounded(pl, XT) /\ DistinctDirections(pl, XT) /\ Separated(V, Shapes[sh].Q * sc[2]))
 
 (* the code's vertex formula, from whichever corner, is Cramer's solution; and the simplices *)
 (* of the dual hull are exactly the plane triples whose common point violates no inequality  *)
@@ -163,7 +174,7 @@ DualIsCramer ==
     /\ {Sorted3(simp[k]) : k \in DOMAIN simp} = FeasibleTriples
 VerticesAreIntersection == AfterExtract => SeqSet(em) = V
 HandVertices ==
-  phase # "idle" =>
+  phase = "duals" =>
     V = { Canon(<< Shapes[sh].Q * sc[1] * h[1], Shapes[sh].Q * sc[1] * h[2], Shapes[sh].Q * sc[1] * h[3], h[4] >>)
           : h \in Shapes[sh].hverts }
 FacetListsExact == AfterExtract => \A m \in DOMAIN pl : Pos(lists[m]) = FacetVerts(pl, V, m)
@@ -180,12 +191,12 @@ HandVol6S == BMulInt(BMulInt(BMulInt(BI(6 * VolS), Shapes[sh].Q * Shapes[sh].Q *
                              sc[1] * sc[1] * sc[1]), Shapes[sh].hn)
 EncIsHand(e) == BLe(BMulInt(e.lo, Shapes[sh].hd), HandVol6S) /\ BLe(HandVol6S, BMulInt(EncHi(e), Shapes[sh].hd))
 VolumeByHand ==
-  /\ phase # "idle" => EncIsHand(Vol6S(pl, V))
+  /\ phase = "duals" => EncIsHand(Vol6S(pl, V))
   /\ phase = "done" => EncIsHand(MeshVol6S(pl, em, tris, trilab))
 
 (* e -> s e moves every vertex to s x (here: y' = sn y) and multiplies the volume by s^3 *)
 ScalingLaw ==
-  phase # "idle" =>
+  phase = "duals" =>
     LET p1 == PlanesOfShape(sh, 1)
         V1 == HalfSpaceVertices(p1, CrossTab(p1))
         e1 == Vol6S(p1, V1)
